@@ -7,31 +7,51 @@ SOURCES = ["src/allmydata/immutable/downloader/node.py", "src/allmydata/immutabl
            "src/allmydata/immutable/filenode.py", "src/allmydata/immutable/literal.py", "src/allmydata/util/spans.py"]
 DESIGN_REF = "DESIGN.md §2 C04"
 TECHNIQUE = ("Lean 4 theorems over the C01 pipeline model extended with DownloadNode.read clipping, the Segmentation loop "
-             "(guessed vs actual segment size, overlap trimming, the single retry), DecryptingConsumer counter positioning and "
-             "LiteralFileNode slicing; differential correspondence of the get_segment call sequence, the chunks written to the "
-             "consumer and the plaintext against real nodes on an in-process grid (fresh and warmed nodes, seeded delivery "
-             "order), of DecryptingConsumer against the keystream model, and of up to four overlapping reads on one node with "
-             "consumers that pause/resume/stop at scripted byte counts; implementation-side monitor against bytes slicing")
-LEVEL_TEXT = ("read_slice proved for every plaintext, encoding, lawful codec, keystream, schedule, offset, size (None included), "
-              "known/guessed segment size; ctr_offset / ctr_stream_chunks proved for all keystreams; literal slicing proved; the "
-              "concurrent reads: safety and independence proved for every number of readers and every schedule of genuine "
-              "segment deliveries (concurrent_reads_safe), queue invariant / cancel / delivery facts proved over all operation "
-              "histories (concurrent_reads_independent_partial); completion (liveness) and the refinement of the eventual-send "
-              "plumbing to those schedules are exercised by the harness, not proved.")
-LEVEL_NOTE = ("Lean kernel + standard axioms; zfec/AES as in C01; the eventual-send plumbing between DownloadNode and "
-              "Segmentation is exercised (seeded schedules), not verified.")
-RULE = ("one case = one read(offset,size) on a real LiteralFileNode / ImmutableFileNode (sequential: fresh or warmed node; "
-        "concurrent: 2-4 overlapping reads started together on one node with scripted pause/resume/stop), or one "
-        "DecryptingConsumer run; offsets and sizes concentrated on segment and 16-byte boundaries, EOF, past EOF, size None; "
-        "distinct = distinct (file, offset, size, node state, script, seed); non-trivial = the requested range is non-empty")
-TRUSTED = ["lean/Tahoe/Immutable/Pipeline.lean (clipRead, overlap, gotSegment, segLoop, decryptAt, litRead) is a hand "
-           "transcription of DownloadNode.read, spans.overlap, Segmentation._fetch_next/_got_segment/_retry_bad_segment, "
-           "DecryptingConsumer and LiteralFileNode.read; lean/Tahoe/Immutable/NodeQueue.lean of DownloadNode.get_segment/"
-           "_start_new_segment/_extract_requests/_cancel_request and the success branch of process_blocks", "harness/grid.py (in-process grid, seeded scheduler, virtual clock)"]
+             "(guessed vs actual segment size, overlap trimming, the single retry), DecryptingConsumer counter positioning, "
+             "LiteralFileNode slicing, the node's shared request queue, byte-level readers under arbitrary delivery schedules, "
+             "and a data refinement of the C03/C46 composed system (DownloadNode queue + fetchers + any number of "
+             "Segmentations, imported) to those readers. Differential correspondence of the get_segment call sequence, chunks "
+             "written and plaintext against real nodes on an in-process grid (fresh and warmed nodes, seeded delivery), of "
+             "DecryptingConsumer against the keystream model, of real Segmentation._got_segment under arbitrary deliveries "
+             "(feedAll), of the real request queue (get_segment / _cancel_request / process_blocks), and of 1-4 overlapping "
+             "reads with pause/resume/stop from inside and from outside write(). A fixed corpus runs first; "
+             "implementation-side monitor against bytes slicing")
+LEVEL_TEXT = ("read_slice_rs256 (zfec's code, no assumption on the erasure code) and read_slice (codec-parametric): every "
+              "read(offset,size) returns exactly the slice, for all offsets, sizes (None included), guessed/known segment "
+              "size; ctr_offset / ctr_stream_chunks for all keystreams; read_slice_literal; concurrent reads, safety half: "
+              "concurrent_reads_safe (every schedule of genuine deliveries to any number of readers) and reads_refine (every "
+              "history of the composed node+reads system of C03/C46: each byte a consumer receives is the byte at that read's "
+              "own position; pause/resume/turn/stop deliver nothing); queue facts: concurrent_reads_independent_partial.  "
+              "Not proved: liveness (every live reader eventually completes) - C03/C46.")
+LEVEL_NOTE = ("Lean kernel + standard axioms; erasure code = C36's rs256 (MDS law proved there), AES-CTR a parameter; the "
+              "composed system Tahoe.Fetch.Sys is tied to the real plumbing by the C46 harness, the byte-level reader and the "
+              "queue by this harness; completion of concurrent reads is monitored, not proved.")
+RULE = ("fixed corpus first (independent of VERIF_SEED; VERIF_CORPUS_ONLY=1 stops here): literal reads for every "
+        "(offset,size) shape incl. size 0; on one node: cancel of one of several readers waiting for the same segment, "
+        "pause/resume from outside write() with the segment arriving during the pause, a lone reader stopped from outside "
+        "with requests in flight followed by new reads, stopped / repeated / concurrent reads from the end offset of a "
+        "completed read. Then: one case = one read(offset,size) on a real LiteralFileNode / ImmutableFileNode (sequential: "
+        "fresh or warmed node, offsets preferring the end of earlier reads, some consumers stopping at the first write; "
+        "concurrent: 2-4 overlapping reads with scripted pause/resume/stop inside write(); external: 1-4 reads driven at "
+        "arbitrary scheduler steps), one DecryptingConsumer run, one queue-operation history, or one arbitrary-delivery "
+        "history of real Segmentation objects; offsets and sizes concentrated on segment and 16-byte boundaries, EOF, past "
+        "EOF, size None; distinct = distinct (file, offset, size, node state, script, seed); non-trivial = the requested "
+        "range is non-empty")
+TRUSTED = ["lean/Tahoe/Immutable/Pipeline.lean (clipRead, overlap, gotSegment, segLoop, ReaderState.deliver, feed, feedAll, "
+           "decryptAt, litRead) is a hand transcription of DownloadNode.read, spans.overlap, Segmentation._fetch_next/"
+           "_got_segment/_retry_bad_segment, DecryptingConsumer and LiteralFileNode.read; lean/Tahoe/Immutable/NodeQueue.lean "
+           "of DownloadNode.get_segment/_start_new_segment/_extract_requests/_cancel_request and the success branch of "
+           "process_blocks",
+           "lean/Tahoe/Immutable/Segmentation.lean + Fetch.lean (C03/C46 builder's Seg / Node / Sys models, imported by "
+           "reads_refine; tied to the code by the C46 harness)",
+           "harness/grid.py (in-process grid, seeded scheduler, virtual clock)"]
 ASSUMPTIONS = ["offsets and sizes are non-negative ints (the web layer validates ranges: C40)",
                "after any answered get_segment the node knows the real segment size (the UEB is fetched before a segment or a "
                "BadSegmentNumberError is delivered)",
-               "delivery orders are those of a fair scheduler (see C01)", "servers honest and available"]
+               "every DownloadNode.read creates a fresh Segmentation for a range clipped to the file (hypothesis HistOk of "
+               "reads_refine)",
+               "delivery orders are those of a fair scheduler (see C01); liveness is not claimed here",
+               "servers honest and available; AES-CTR = xor with a keystream; zfec's C code computes the rs256 model"]
 
 import random
 
